@@ -254,7 +254,17 @@ func (d *DeadlineChan[T]) SetDeadline(t time.Time) error {
 	if vt.On {
 		vt.Step("dc.setdl.D2")
 	}
-	return d.deadline.SetDeadline(t)
+	err := d.deadline.SetDeadline(t)
+	if vt.On {
+		vt.Step("dc.setdl.D3")
+	}
+	if d.closed.Load() {
+		// Close ran in between and SetDeadline may have replaced the channel it
+		// cancelled. Cancel again so that nobody waits on the fresh one.
+		d.deadline.Cancel(io.EOF)
+		return io.EOF
+	}
+	return err
 }
 
 // Cancel cancels pending calls to Send and Recv and causes them to return err
@@ -277,28 +287,29 @@ func (d *DeadlineChan[T]) Cancel(err error) error {
 // io.EOF rather than os.ErrDeadlineExceeded even after the deadline has expired
 func (d *DeadlineChan[T]) Close() error {
 	if vt.On {
-		vt.Step("dc.close.K1")
+		vt.Step("dc.close.F1")
 	}
+	first := d.closed.CompareAndSwap(false, true)
+	if vt.On {
+		vt.Step("dc.close.F2")
+	}
+	if first {
+		// Cancel before taking the lock: a Send blocked on a full queue holds it.
+		d.deadline.Cancel(io.EOF)
+	}
+	if vt.On {
+		vt.Step("dc.close.F3")
+	}
+	// Wait for Sends that are past their closed check, so that the caller may
+	// close C once Close has returned.
 	d.m.Lock()
-	defer d.m.Unlock()
 	if vt.On {
-		defer vt.Step("dc.close.KU")
+		vt.Step("dc.close.F4")
 	}
-
-	if vt.On {
-		vt.Step("dc.close.K2")
-	}
-	if d.closed.Load() {
+	d.m.Unlock()
+	if !first {
 		return io.EOF
 	}
-	if vt.On {
-		vt.Step("dc.close.K3")
-	}
-	d.closed.Store(true)
-	if vt.On {
-		vt.Step("dc.close.K4")
-	}
-	d.deadline.Cancel(io.EOF)
 	return nil
 }
 
